@@ -18,6 +18,8 @@ pub mod c14;
 pub mod c15;
 pub mod c16;
 pub mod c17;
+#[cfg(paseto_verif)]
+pub mod h1;
 
 pub fn run(prop: &str, opts: &Opts) -> bool {
     match prop {
@@ -42,6 +44,8 @@ pub fn run(prop: &str, opts: &Opts) -> bool {
         "c16check" => c16::check_logs(opts),
         "c17" => c17::run(opts),
         "featkeys" => featkeys(opts),
+        #[cfg(paseto_verif)]
+        "h1" => h1::run(opts),
         _ => return false,
     }
     true
